@@ -560,7 +560,21 @@ func runC05Needs(c *Ctx) {
 				}
 			}
 		}
-		if okKey && sameLookup && strict {
+		// every entry of Job.Needs is looked at: the loop that makes the entries is left only at its header
+		allSeen := false
+		if h, body := innermostLoop(mu.Block()); h != nil {
+			allSeen = true
+			for x := range body {
+				for _, s := range x.Succs {
+					if x != h && !body[s] {
+						allSeen = false
+					}
+				}
+			}
+		}
+		if okKey && sameLookup && strict && !allSeen {
+			c.bad(construct, mu.Pos(), "the loop over the needs entries can be left before the last entry (return/break in its body): a directly needed job listed behind the entry that ends the loop is missing from the needs scope")
+		} else if okKey && sameLookup && strict {
 			c.ok(construct, mu.Pos(), "needs.<lower id> is a strict object, present iff the job exists under the same key")
 		} else {
 			c.bad(construct, mu.Pos(), fmt.Sprintf("lower-cased key=%v, job looked up under the same key=%v, strict=%v", okKey, sameLookup, strict))
